@@ -1,0 +1,103 @@
+//go:build verif
+
+package set
+
+// Contracts for the integer set used by the JSON and text decoders to detect
+// duplicate fields and oneof members (property C26).
+// Abstract view: specHas(bs, n) <=> n is a member. Every operation is specified
+// on the whole view (all n), not just the touched element.
+
+// specLoHas: bit n of the 64-bit word (false for n >= 64).
+func specLoHas(w uint64, n uint64) bool { return n < 64 && (w>>n)&1 == 1 }
+
+//@ props C26
+func contract_int64s_Has(bs *int64s, n uint64) (r bool) {
+	requires(bs != nil)
+	ensures(r == specLoHas(uint64(*bs), n))
+	return
+}
+
+//@ props C26
+func contract_int64s_Set(bs *int64s, n uint64) {
+	requires(bs != nil && n < 64)
+	modifiesPtr(bs)
+	ensures(forall(0, 64, func(m int) bool {
+		return specLoHas(uint64(*bs), uint64(m)) == (uint64(m) == n || specLoHas(uint64(old(*bs)), uint64(m)))
+	}))
+}
+
+//@ props C26
+func contract_int64s_Clear(bs *int64s, n uint64) {
+	requires(bs != nil && n < 64)
+	modifiesPtr(bs)
+	ensures(forall(0, 64, func(m int) bool {
+		return specLoHas(uint64(*bs), uint64(m)) == (uint64(m) != n && specLoHas(uint64(old(*bs)), uint64(m)))
+	}))
+}
+
+// specBitCount: number of members of the word, by definition (sum of the bits).
+func specBitCount(w uint64) int { return specBitCountFrom(w, 0) }
+
+//@ unfold 64
+func specBitCountFrom(w uint64, i int) int {
+	if i >= 64 {
+		return 0
+	}
+	return int((w>>uint(i))&1) + specBitCountFrom(w, i+1)
+}
+
+//@ props C26
+func contract_int64s_Len(bs *int64s) (n int) {
+	requires(bs != nil)
+	ensures(n == specBitCount(uint64(*bs)))
+	return
+}
+
+// specHas: membership in the whole set: the bitmap below 64, the map above.
+func specHas(bs *Ints, n uint64) bool {
+	if n < 64 {
+		return specLoHas(uint64(bs.lo), n)
+	}
+	_, ok := bs.hi[n]
+	return ok
+}
+
+//@ props C26
+//@ inline Has
+func contract_Ints_Has(bs *Ints, n uint64) (r bool) {
+	requires(bs != nil)
+	ensures(r == specHas(bs, n))
+	return
+}
+
+//@ props C26
+//@ inline Set
+func contract_Ints_Set(bs *Ints, n uint64) {
+	requires(bs != nil)
+	modifiesPtr(bs)
+	modifiesMap(bs.hi)
+	ensures(specHas(bs, n))
+	return
+}
+
+// lemma_SetFrame: Set(n) adds n and leaves the membership of every other m unchanged.
+//
+//@ props C26
+//@ inline Set
+func lemma_SetFrame(bs *Ints, n uint64, m uint64) {
+	requires(bs != nil && m != n)
+	before := specHas(bs, m)
+	bs.Set(n)
+	ensures(specHas(bs, n))
+	ensures(specHas(bs, m) == before)
+}
+
+//@ props C26
+//@ inline Clear
+func lemma_ClearFrame(bs *Ints, n uint64, m uint64) {
+	requires(bs != nil && m != n)
+	before := specHas(bs, m)
+	bs.Clear(n)
+	ensures(!specHas(bs, n))
+	ensures(specHas(bs, m) == before)
+}
